@@ -672,6 +672,12 @@ class FnRun:
                         self.an.record_field(rv["adt"], fdef["name"], v)
                 if v is not None:
                     st[(ndl, pre + (("f", i),))] = v
+                    if opl is not None and rv["agg"] == "tuple":
+                        # `match (a, b)`: a component of the scrutinee tuple is a copy of a place; what the match arms
+                        # learn about the component holds for the place as well
+                        sk = self.operand_key(st, o)
+                        if sk is not None and sk != (ndl, pre + (("f", i),)):
+                            st[("alias", (ndl, pre + (("f", i),)))] = sk
                 elif opl is not None:
                     # nested aggregate: copy sub keys
                     sl, sp = self.norm(st, opl["l"], [pe(e) for e in opl["p"]])
@@ -1011,7 +1017,7 @@ class FnRun:
             return out
         return out
 
-    def propagate_alias(self, st, key):
+    def propagate_alias(self, st, key, depth=0):
         a = st.get(("alias", key))
         if a is not None and key in st:
             cur = st.get(a) or self.default(*a)
@@ -1019,6 +1025,8 @@ class FnRun:
                 m = meet(cur, st[key])
                 if m is not None:
                     st[a] = m
+                    if depth < 4:
+                        self.propagate_alias(st, a, depth + 1)   # tuple component -> temporary -> the place it copies
 
     def refine_by_cond(self, st, key, truth):
         """apply what a true/false result of an analysed bool callee implies for the argument places"""
@@ -1177,7 +1185,62 @@ class FnRun:
                 out[k] = j
             elif va == vb:
                 out[k] = va
+        if not widen:
+            self._flag_partitions(a, b, out)
         return out
+
+    def _flag_partitions(self, a, b, out):
+        """A bool local that is a different constant in the two joined states (`let ok = x >= 0 && ..;` leaves `ok = true`
+        on one incoming edge and `ok = false` on the others) keeps, as a ("cond", flag) entry, what each value implies for
+        the integer places: a later `if ok` / `if !ok` recovers the bounds established on the path that set the flag (the
+        entry dies with the first write to the flag or to a place it mentions, see kill())."""
+        def places(st):
+            return {k: v for k, v in st.items() if isinstance(k[0], int) and isinstance(v, tuple) and len(v) == 2}
+
+        def jmap(m1, m2):
+            if m1 is None:
+                return m2
+            if m2 is None:
+                return m1
+            return {k: join(v, m2[k]) for k, v in m1.items() if k in m2}
+        for k in list(out):
+            if not (isinstance(k[0], int) and out[k] == (0, 1)):
+                continue
+            try:
+                ty, _ = self.an.place_type(self.body, k[0], k[1])
+            except Exception:
+                continue
+            if ty != "bool":
+                continue
+            va, vb = a.get(k), b.get(k)
+            ca, cb = a.get(("cond", k)), b.get(("cond", k))
+            if va == vb == (0, 1) and ca is None and cb is None and ("rel", k) not in a and ("rel", k) not in b:
+                continue
+            parts = {1: None, 0: None}
+            okp = True
+            for st, v, c in ((a, va, ca), (b, vb, cb)):
+                if v in ((0, 0), (1, 1)):
+                    parts[v[0]] = jmap(parts[v[0]], {p: x for p, x in places(st).items() if p != k})
+                elif v == (0, 1) and c is not None and c[0] is not None and c[1] is not None and all(isinstance(m, dict) for m in c):
+                    parts[1] = jmap(parts[1], c[0])
+                    parts[0] = jmap(parts[0], c[1])
+                elif v == (0, 1):
+                    # the flag is a comparison result on this edge (`.. && h > y`): each value of it refines this state
+                    for tv in (1, 0):
+                        st2 = dict(st)
+                        if ("rel", k) in st2 and self.refine_by_rel(st2, k, bool(tv)) is False:
+                            continue
+                        if ("cond", k) in st2 and self.refine_by_cond(st2, k, bool(tv)) is False:
+                            continue
+                        parts[tv] = jmap(parts[tv], {p: x for p, x in places(st2).items() if p != k})
+                else:
+                    okp = False
+            if okp and parts[0] is not None and parts[1] is not None:
+                # keep only places for which the flag says something (differs from the joined value)
+                tm = {p: x for p, x in parts[1].items() if out.get(p) != x and p in out}
+                fm = {p: x for p, x in parts[0].items() if out.get(p) != x and p in out}
+                if tm or fm:
+                    out[("cond", k)] = (tm, fm)
 
 
 def fmt(v):
